@@ -311,8 +311,8 @@ ADDED2 = {
     'C03': ' B5 also: no loop on the exec path retries depending on errno.',
     'C04': ' R6: error logging is switched back on only where it was found on. R7: a copy of the output argument into a fixed '
            'address field is offered the whole field.',
-    'C05': ' L5: per-tag name/argument buffers are rebuilt on every way round the expansion loop.',
-    'C06': ' S1: each store function writes its own field of the per-call record only.',
+    'C05': ' L5: per-tag name/argument buffers are rebuilt on every way round the expansion loop. L6: the name looked up is the tag from its first character.',
+    'C06': ' S1: each store function writes its own field of the per-call record only. S5: no precision on the conversions printing the path/arguments.',
     'C08': ' T9 output without argument gets the empty argument; T11 string options stored whole; T12 snoopyctl conf prints values '
            'unchanged; T7 over the INI parser and its helpers, inline-comment scan before the trim; T5 a section header forgets '
            'the remembered option name.',
@@ -321,6 +321,7 @@ ADDED2 = {
     'C14': ' U3: the whole list is parsed (strdup of the argument) and the list parser\'s count matches its entries.',
     'C15': ' X1: only pid 0 ends the walk; X4: an empty-string list terminator must not be a possible item.',
     'C16': ' O6: the strings of the environment are only read.',
+    'C17': ' W1 also: neither O_EXCL nor O_NONBLOCK on the named file writer.',
     'C18': ' Q1: the preload file is read whole (buffer sized from the measured file size). Q8: written-before-read and loop progress in the CLI code.',
     'C19': ' Q1/Q8 as for C18.',
 }
